@@ -241,6 +241,7 @@ func genScript(r *rand.Rand, id string, quick bool) script {
 				s.Ops = append(s.Ops,
 					op{Op: "backend", Target: "both", Mode: []string{"up", "up", "down"}[r.Intn(3)]},
 					op{Op: "dupupload", Blob: blobs, NS: namespaces[r.Intn(len(namespaces))], DelayMs: longDelayMs},
+					op{Op: "sleep", Ms: 40},
 					op{Op: "forcecleanup", TTLHr: 0},
 					op{Op: "advance", Hours: 3},
 					op{Op: "cleanup"})
@@ -750,6 +751,7 @@ func (r *runner) execute() (expired string, pending []string) {
 	if r.longDel {
 		// write-back tasks with a one-hour delay are not due within the script; a
 		// forced cleanup executes them regardless of their delay
+		time.Sleep(40 * time.Millisecond)
 		r.forceCleanup(0)
 		r.conserve("final: forcecleanup ttl_hr=0 for not-yet-due write-backs", "forcecleanup")
 	}
